@@ -177,12 +177,11 @@ func (s *sim) do(f func()) bool {
 	}()
 	x := <-done
 	if x.bp != nil {
-		// the node the stimulus ran in is dead like after a Crit (its locks may be held):
-		// stop generating, clean up, and re-raise the panic at the end of the run
+		// the node the stimulus ran in is dead like after a Crit (its locks may be held): the
+		// caller stops feeding it; the panic is re-raised at the end of the run
 		if s.panicked == nil {
 			s.panicked = x.bp
 		}
-		s.dead = true
 		s.r.Logf("PANIC in a stimulus: %v", x.bp.Val)
 		return false
 	}
